@@ -50,9 +50,16 @@ type Closure struct {
 	// builtin or bound method could be added later
 }
 
-type MapEntry struct{ k, v Val }
+// MapEntry keeps the key as an (immutable) register value and the element in a heap slot of the element type's size,
+// so that runtime-style access (mapassign returns a pointer to the slot, iterators hand out key/value pointers) works.
+type MapEntry struct {
+	k    Val
+	vobj *Obj
+	kobj *Obj // created on demand for iterators that need the key's address
+}
 type MapObj struct {
 	id      int
+	hdr     *Obj // the address of the map header: what an unsafe.Pointer view of the map value holds
 	entries []MapEntry
 	typ     *types.Map
 	snap    bool
